@@ -82,3 +82,89 @@ def rw_boxed_error(toks, counts):
         n += 1
     _count(counts, "R4", n)
     return toks
+
+
+def rw_iflet_ref_patterns(toks, counts):
+    """R15b: `if let PAT = E {` where PAT contains a reference pattern `&(..)`/`&Path(..)`: the `&` is
+    dropped (default binding mode), identifiers bound by value inside it are re-bound with
+    `let x = *x;` at the head of the block, and identifiers bound with `ref x` simply lose the
+    (now implicit) `ref`. Types and values of all bindings are unchanged."""
+    n = 0
+    while True:
+        si = sig_idx(toks)
+        hit = None
+        for a in range(len(si) - 3):
+            if toks[si[a]].text == "if" and toks[si[a + 1]].text == "let":
+                # pattern: up to the `=` at depth 0
+                b = a + 2
+                d = 0
+                while True:
+                    t = toks[si[b]]
+                    if t.kind == "p" and t.text in "([":
+                        d += 1
+                    elif t.kind == "p" and t.text in ")]":
+                        d -= 1
+                    elif t.kind == "p" and t.text == "=" and d == 0:
+                        break
+                    b += 1
+                pat = si[a + 2:b]
+                amp = None
+                for x in range(len(pat) - 1):
+                    if toks[pat[x]].text == "&" and toks[pat[x + 1]].text != "mut":
+                        amp = x; break
+                if amp is None:
+                    continue
+                # sub-pattern extent
+                y = amp + 1
+                if toks[pat[y]].text == "(":
+                    end = match_close(toks, pat[y])
+                else:
+                    while y + 2 < len(pat) and toks[pat[y + 1]].text == ":" and toks[pat[y + 2]].text == ":":
+                        y += 3
+                    end = pat[y]
+                    if y + 1 < len(pat) and toks[pat[y + 1]].text in "({":
+                        end = match_close(toks, pat[y + 1])
+                sub = [k for k in range(pat[amp] + 1, end + 1) if is_sig(toks[k])]
+                binds, drop = [], [pat[amp]]
+                for q, k in enumerate(sub):
+                    t = toks[k]
+                    if t.kind != "id" or not (t.text[0].islower() or t.text[0] == "_") or t.text in ("_", "mut"):
+                        continue
+                    if t.text == "ref":
+                        drop.append(k); continue
+                    nxt = toks[sub[q + 1]].text if q + 1 < len(sub) else ""
+                    prv = toks[sub[q - 1]].text if q > 0 else ""
+                    if nxt in ("(", "{", "!") or prv == ":":
+                        continue
+                    if prv == "ref":
+                        continue
+                    binds.append(t.text)
+                # block start: first `{` at depth 0 after `=`
+                k = si[b] + 1
+                d = 0
+                while True:
+                    t = toks[k]
+                    if t.kind == "p" and t.text in "([":
+                        d += 1
+                    elif t.kind == "p" and t.text in ")]":
+                        d -= 1
+                    elif t.kind == "p" and t.text == "{" and d == 0:
+                        break
+                    k += 1
+                hit = (drop, k, binds)
+                break
+        if not hit:
+            break
+        drop, blk, binds = hit
+        lets = "".join(" let %s = *%s;" % (b_, b_) for b_ in binds)
+        new = []
+        for i, t in enumerate(toks):
+            if i in drop:
+                continue
+            new.append(t)
+            if i == blk:
+                new += lex(lets)
+        toks = relex(text(new))
+        n += 1
+    _count(counts, "R15", n)
+    return toks
